@@ -6,6 +6,7 @@ import tempfile
 from .. import clitools, gen, stages
 from . import common
 
+SITE_KINDS = {"open-for-writing", "print"}
 RULE = ("fault kinds {missing file, malformed JSON / YAML / INI, lookup to a missing key / scalar / through a list, non-object "
         "sample, non-string keys (YAML), bad merge policy (unknown name, bad argument), framework/generator mismatch, unknown "
         "option, generator exception (key without word characters; two models with empty key sets under the percent "
